@@ -289,6 +289,19 @@ fn ladders(thorough: bool) -> Vec<String> {
     v
 }
 
+/// Programs written for error recovery: every statement form, nested, with control flow *after* the
+/// places where a mutant breaks the syntax (the compiler's per-function state - scopes, loops, try
+/// statements, class context - has to survive the error it has just reported).
+fn recovery_templates() -> Vec<String> {
+    vec![
+        "fn f(items) {\n  var total = 0;\n  for it in items {\n    {\n      var a = 1;\n      var b = 2;\n      try {\n        var c = a + b;\n        if it == c { throw \"three\"; }\n        total += it;\n      } catch e {\n        var d = 4;\n        print(\"${e} ${d}\");\n      } finally {\n        var g = 5;\n        total += g;\n      }\n    }\n    if total > 100 { break; }\n    if total == 7 { continue; }\n    total += 1;\n  }\n  return total;\n}\nprint(f([1, 2, 3]));\n".to_string(),
+        "var n = 0;\nwhile n < 3 {\n  n += 1;\n  var k = n * 2;\n  {\n    var inner = k + 1;\n    try { print(inner); } catch err { print(err); }\n    var after = inner + 1;\n    if after > 5 { continue; }\n  }\n  while true {\n    var z = 1;\n    try { break; } finally { print(z); }\n  }\n  if k > 4 { break; }\n}\nprint(n);\n".to_string(),
+        "#[constructor(new)]\nclass Base {\n  fn m(self, x) { return x + 1; }\n  #[static]\n  fn make() { return Self.new(); }\n}\n#[constructor(new), derive(Base)]\nclass Derived {\n  fn m(self, x) {\n    var up = super.m(x);\n    for i in 0..2 {\n      try { if i == 1 { return up + i; } } catch e { continue; }\n    }\n    return up;\n  }\n}\nprint(Derived.new().m(1));\nprint(Base.make().m(2));\n".to_string(),
+        "fn outer() {\n  var captured = [1, 2];\n  var g = |x| {\n    var loc = x * 2;\n    for v in captured {\n      if v == loc { return v; }\n      try { captured.push(v); break; } catch e { print(e); }\n    }\n    return loc;\n  };\n  var h = || captured.len();\n  return (g(1), h());\n}\nprint(outer());\nvar m = {\"k\": [1, (2, 3)], 4: \"v${1 + 2}w\"};\nprint(m.get(\"k\")[1][0]);\n".to_string(),
+        "import \"mod\" as mm;\nvar f = Fiber.new(|a| {\n  var got = Fiber.yield(a + 1);\n  while got != nil {\n    try { got = Fiber.yield(got * 2); } finally { print(\"f\"); }\n    if got == 9 { break; }\n  }\n  return \"done\";\n});\nprint(f.call(1));\nprint(f.call(3));\nprint(f.call(nil));\nprint(f.has_finished());\nprint(1 < 2 && !(3 >= 4) || nil == false);\nprint(-(1 + 2) * 3 % 4 / 5 - 6 & 7 | 8 ^ 9 << 1 >> 2);\n".to_string(),
+    ]
+}
+
 pub fn run(ctx: &Ctx) -> Report {
     let mut report = Report::new();
     let scripts = corpus::load_scripts(&ctx.repo_dir);
@@ -405,7 +418,30 @@ pub fn run(ctx: &Ctx) -> Report {
         }
         out.into_iter()
     });
-    let all = fam_a.chain(fam_b).chain(fam_e).chain(fam_d).chain(fam_f).chain(fam_c);
+    // (g) the recovery templates under every token-level mutant, with replacement by each of the 71 token
+    // kinds in both tiers
+    let templates = recovery_templates();
+    let fam_g = templates.iter().flat_map(|src| {
+        let toks = lexer::lex(src);
+        let mut out: Vec<Case> = Vec::new();
+        for (k, t) in toks.iter().enumerate() {
+            let before = &src[..t.start];
+            let text = &src[t.start..t.end];
+            let after = &src[t.end..];
+            out.push(Case { family: "g_recovery_delete", src: format!("{}{}", before, after), must_err: false });
+            out.push(Case { family: "g_recovery_duplicate", src: format!("{}{} {}{}", before, text, text, after), must_err: false });
+            if let Some(n) = toks.get(k + 1) {
+                let ntext = &src[n.start..n.end];
+                out.push(Case { family: "g_recovery_swap", src: format!("{}{}{}{}{}", before, ntext, &src[t.end..n.start], text, &src[n.end..]), must_err: false });
+            }
+            for r in VOCAB[..71].iter() {
+                out.push(Case { family: "g_recovery_replace", src: format!("{}{} {}", before, r, after), must_err: false });
+                out.push(Case { family: "g_recovery_insert", src: format!("{}{} {}{}", before, r, text, after), must_err: false });
+            }
+        }
+        out.into_iter()
+    });
+    let all = fam_a.chain(fam_b).chain(fam_e).chain(fam_d).chain(fam_f).chain(fam_g).chain(fam_c);
     // batches of 400 inputs
     struct Batcher<I: Iterator<Item = Case>> {
         it: I,
@@ -452,7 +488,7 @@ pub fn run(ctx: &Ctx) -> Report {
     report.cov("states", json!(acc.distinct.len()));
     report.cov("transitions", json!(acc.evaluations));
     report.cov("traces_validated_against_impl", json!(acc.evaluations));
-    report.cov("rule", json!("inputs enumerated exhaustively per family (every prefix at every char boundary of every repository script and core.yl; token-level delete/duplicate/swap[/replace-by-each-token-kind] mutants at every token position; every token sequence up to the stated length over the full token vocabulary; nesting ladders and limit-sized programs; valid programs with one stray closer at every token position; character-level mutants: every single-character deletion and insertions of ten lexically significant characters). distinct = distinct source text; non-trivial = at least two tokens by the reference lexer."));
+    report.cov("rule", json!("inputs enumerated exhaustively per family (every prefix at every char boundary of every repository script and core.yl; token-level delete/duplicate/swap[/replace-by-each-token-kind] mutants at every token position; every token sequence up to the stated length over the full token vocabulary; nesting ladders and limit-sized programs; valid programs with one stray closer at every token position; character-level mutants: every single-character deletion and insertions of ten lexically significant characters; five recovery templates - every statement form nested, with control flow after the places a mutant breaks - under deletion, duplication, swap, and replacement by / insertion of each of the 71 token kinds at every token position). distinct = distinct source text; non-trivial = at least two tokens by the reference lexer."));
     report.cov("exhaustive", json!(true));
     report.cov("bounds", json!({"token_sequence_length": seq_len, "vocabulary": nv, "replacement_mutants": thorough, "ladder_depth_max": 256}));
     report.cov("by_family", json!(acc.by_family));
